@@ -1,10 +1,187 @@
-"""Thread part of C09 (placeholder until vf/sched.py is built)."""
+"""Thread part of C09 (E2): scope stacks are private to a thread under every bounded-preemption schedule."""
+import os
+import sys
+import time
+
+from vf import core
+from vf import harness
+from vf import sched
+from vf.harness import gin, cfg
+
+CONFIG = """
+c09.probe.x = 'ROOT'
+a/c09.probe.x = 'A'
+a/b/c09.probe.x = 'AB'
+x/c09.probe.x = 'X'
+p/c09.probe.x = 'P'
+"""
+
+
+def _probe():
+  from checks import c09
+  return c09.PROBE()
+
+
+def t_nested():
+  out = []
+  with gin.config_scope('a'):
+    out.append((gin.current_scope(), _probe()))
+    with gin.config_scope('b'):
+      out.append((gin.current_scope_str(), _probe()))
+    out.append((gin.current_scope(), _probe()))
+  out.append((gin.current_scope(), _probe()))
+  return out
+
+
+def t_list_none():
+  out = []
+  with gin.config_scope(['x']):
+    out.append((gin.current_scope(), _probe()))
+    with gin.config_scope(None):
+      out.append((gin.current_scope(), _probe()))
+    out.append((gin.current_scope(), gin.get_configurable('p/c09.probe')()))
+  out.append((gin.current_scope(), _probe()))
+  return out
+
+
+def t_errors():
+  out = []
+  try:
+    with gin.config_scope('a'):
+      with gin.config_scope('bad name'):
+        out.append('entered invalid')
+  except ValueError:
+    out.append(('after invalid', gin.current_scope()))
+  try:
+    with gin.config_scope('a/b'):
+      out.append((gin.current_scope(), _probe()))
+      raise KeyError('boom')
+  except KeyError:
+    out.append(('after raise', gin.current_scope(), _probe()))
+  return out
+
+
+def t_small_a():
+  with gin.config_scope('a'):
+    s1 = gin.current_scope()
+  return [s1, gin.current_scope()]
+
+
+def t_small_x():
+  with gin.config_scope(['x']):
+    s1 = gin.current_scope()
+    with gin.config_scope('y'):
+      s2 = gin.current_scope()
+  return [s1, s2, gin.current_scope()]
+
+
+HARNESSES = {
+    'S1_nested+list': lambda: [t_nested, t_list_none],
+    'S2_three_threads': lambda: [t_nested, t_list_none, t_errors],
+    'S3_small_enter_exit': lambda: [t_small_a, t_small_x],
+    'S4_errors+nested': lambda: [t_errors, t_nested],
+}
+
+
+def plan(tier):
+  if tier == 'quick':
+    return [('S1_nested+list', 1, 'shared'), ('S2_three_threads', 1, 'shared'), ('S3_small_enter_exit', 2, 'all')]
+  return [('S1_nested+list', 2, 'shared'), ('S2_three_threads', 1, 'all'), ('S3_small_enter_exit', 3, 'all'),
+          ('S4_errors+nested', 2, 'shared'), ('S1_nested+list', 1, 'all')]
+
+
+def make_world(hname):
+  def make():
+    harness.hard_reset()
+    gin.parse_config(CONFIG)
+    return HARNESSES[hname]()
+  return make
+
+
+_REF = {}
+
+
+def reference(hname):
+  if hname not in _REF:
+    bodies = make_world(hname)()
+    outs = sched.run_sequential(bodies)
+    for o in outs:
+      if 'e' in o:
+        raise RuntimeError('sequential run of %s raised %r' % (hname, o['e']))
+    _REF[hname] = [o['r'] for o in outs]
+  return _REF[hname]
+
+
+def oracle(hname, x, res, gran):
+  art = {'harness': hname, 'schedule': sorted(x.devs.items()), 'granularity': gran}
+  npre = x.preemptions_before(len(x.points))
+  res.case(('thr', hname, gran, tuple(sorted(x.devs.items()))), npre >= 1)
+  res.traces += 1
+  res.transitions += x.nsteps
+  for p in x.points:
+    res.state(('thr', hname, p[0], p[3]))
+  if x.deadlock:
+    res.violation('thread_deadlock', '%s: deadlock under schedule %r' % (hname, art['schedule']), art)
+    return
+  ref = _REF[hname]
+  ok = True
+  for t in x.threads:
+    if t.exc is not None:
+      ok = False
+      res.violation('thread_exception', '%s: thread %d raised %r under schedule %r' %
+                    (hname, t.id, t.exc, art['schedule']), art)
+    elif t.result != ref[t.id]:
+      ok = False
+      res.violation('thread_scope_interference', '%s: thread %d observed %r under schedule %r; alone it observes %r'
+                    % (hname, t.id, t.result, art['schedule'], ref[t.id]), art)
+  res.outcome('thr:%s' % ('same' if ok else 'diff'))
+  if ok and npre:
+    res.w('thread_private')
+
+
+def _node_task(args):
+  hname, node, bnd, gran, local = args
+  res = core.Result()
+  kids = []
+  try:
+    reference(hname)
+    make = make_world(hname)
+    if local:
+      sched.explore_local(make, node, bnd, lambda x: oracle(hname, x, res, gran), gran, sched.new_stats())
+    else:
+      x = sched.run_node(make, node, gran)
+      oracle(hname, x, res, gran)
+      kids = sched.children(x, node[0], bnd)
+  except Exception:  # pylint: disable=broad-except
+    import traceback
+    res.extra['harness_error'] = traceback.format_exc() + '\nargs=%r' % (args,)
+  harness.hard_reset()
+  return res, kids
 
 
 def run_threads(ctx, res):
-  res.w('thread_private')  # TEMPORARY: replaced by the E2 exploration
+  sched.install_model_locks()
+  t0 = time.time()
+  for hname, bnd, gran in plan(ctx.tier):
+    reference(hname)
+    r = core.Result()
+    sched.drive(ctx, _node_task, lambda nd, local, h=hname, b=bnd, g=gran: (h, nd, b, g, local), bnd, r,
+                local_budget=min(1, bnd - 1))
+    res.extra.setdefault('thread_harnesses', {})['%s/%s/k<=%d' % (hname, gran, bnd)] = {
+        'schedules': r.traces, 'steps': r.transitions}
+    res.sample({'harness': hname, 'granularity': gran, 'preemption_bound': bnd, 'schedules': r.traces})
+    res.merge(r)
+    if os.environ.get('VERIF_DEBUG'):
+      print('  [c09] %s %s k<=%d: %d schedules, %.1fs' % (hname, gran, bnd, r.traces, time.time() - t0),
+            file=sys.stderr)
 
 
 def replay(obj):
-  from vf import core
-  return core.Result()
+  res = core.Result()
+  sched.install_model_locks()
+  hname = obj['harness']
+  reference(hname)
+  x = sched.Sched(make_world(hname)(), [tuple(d) for d in obj['schedule']], obj.get('granularity', 'shared')).run()
+  oracle(hname, x, res, obj.get('granularity', 'shared'))
+  harness.hard_reset()
+  return res
